@@ -27,9 +27,13 @@ class Config:
     lazy: int = 0
     unwind: int = 1
     fam: int = 0
+    tree: int = 0              # run through parse_tree::parse with the grammar's selector (C12)
 
     def cpp(self, g: Grammar) -> str:
         ctl = f"{g.ns}::ctl" if self.unwind else f"{g.ns}::ctl_nu"
+        if self.tree:
+            return (f"vh::run_case_tree< {g.ns}::tag, {g.nodes[self.root].cpp}, {g.ns}::sel, {g.ns}::act{self.fam}, {ctl}, "
+                    f"tao::pegtl::tracking_mode::{'lazy' if self.lazy else 'eager'}, {EOLS[self.eol]} >")
         return (f"vh::run_case< {g.ns}::tag, {g.nodes[self.root].cpp}, {g.ns}::act{self.fam}, {ctl}, "
                 f"tao::pegtl::apply_mode::{'action' if self.a else 'nothing'}, "
                 f"tao::pegtl::rewind_mode::{'required' if self.m == 'r' else 'optional'}, "
@@ -49,6 +53,8 @@ class Case:
 class Trace:
     events: List[str] = field(default_factory=list)   # raw event lines
     result: str = ''                                  # the R line
+    tree: List[str] = field(default_factory=list)     # TREE / T lines (C12)
+    leaf_sound: str = ''                              # model only: side condition of C12_tree evaluated on this trace
     o: str = ''                                       # the O line
     surv: List[str] = field(default_factory=list)     # model only
 
@@ -74,6 +80,10 @@ def parse_traces(text: str) -> Dict[str, Trace]:
             cur.o = line
         elif line.startswith('S '):
             cur.surv.append(line[2:])
+        elif line.startswith('T ') or line.startswith('TREE'):
+            cur.tree.append(line)
+        elif line.startswith('LS '):
+            cur.leaf_sound = line[3:].strip()
         else:
             cur.events.append(line)
     return out
